@@ -694,6 +694,10 @@ impl PrunePlan {
     ) -> RusticResult<Self> {
         let be = repo.dbe();
 
+        // The plan time must not be later than the moment the snapshots are read: a pack may only be
+        // removed if its keep-delete time was over before we looked for the data still in use.
+        let plan_time = Zoned::now();
+
         let version = repo.config().version;
 
         if version < 2 && opts.repack_uncompressed {
@@ -737,6 +741,7 @@ impl PrunePlan {
         p.finish();
 
         let mut pruner = Self::new(used_ids, existing_packs, index_files);
+        pruner.time = plan_time;
         pruner.count_used_blobs();
         pruner.check()?;
         let repack_cacheable_only = opts
@@ -1234,6 +1239,10 @@ pub(crate) fn prune_repository<S: Open>(
     let prune_time = prune_plan.time.timestamp();
 
     let mut indexer = Indexer::new_unindexed(be.clone());
+    // The delete marks only become visible to other commands when the index holding them is written,
+    // i.e. after repacking. They are held back and stamped with that time (not the plan time), so that
+    // `keep_delete` counts from their publication.
+    indexer.hold_removals();
     // mark unreferenced packs for deletion
     if !prune_plan.existing_packs.is_empty() {
         if opts.instant_delete {
@@ -1360,6 +1369,7 @@ pub(crate) fn prune_repository<S: Open>(
     p.finish();
 
     if repack_packs.is_empty() {
+        indexer.release_removals(prune_time, Timestamp::now())?;
         indexer.finalize()?;
     } else {
         let p = repo.progress_bytes("repacking...");
@@ -1434,7 +1444,9 @@ pub(crate) fn prune_repository<S: Open>(
             })?;
         _ = tree_repacker.finalize()?;
         _ = data_repacker.finalize()?;
-        indexer.write().unwrap().finalize()?;
+        let mut indexer = indexer.write().unwrap();
+        indexer.release_removals(prune_time, Timestamp::now())?;
+        indexer.finalize()?;
         p.finish();
     }
 
